@@ -1,6 +1,6 @@
 (* C14 witnesses: `_refuted` statements by vm_compute, and non-vacuity of the theorems' hypotheses. *)
 From Coq Require Import List Bool Arith ZArith Lia Permutation.
-From PAFC14 Require Import Model Lib Proofs1 Proofs2 Proofs3 Proofs4.
+From PAFC14 Require Import Model Lib Proofs1 Proofs2 Proofs3 Proofs4 Proofs6.
 Import ListNotations.
 
 Definition o2 : list (outcome nat nat) := [Ok 10; Ok 20].
@@ -106,4 +106,13 @@ Proof. vm_compute. reflexivity. Qed.
 (* the hypothesis of the termination theorem: schedules after which every job has been evaluated exist *)
 Example nonvacuous_every_job_evaluated :
   concat (pend (fst (run [F 1; P; F 0] (start (enum [@Ok nat nat 1; Ok 2]) (fresh 2))))) = [].
+Proof. vm_compute. reflexivity. Qed.
+
+(* hypotheses of the termination theorems for the code as it is now *)
+Example nonvacuous_mapfix_every_job_evaluated :
+  concat (pend (fst (frun [F 1; P; F 0] (fstart (enum [@Ok nat nat 1; Ok 2]) (fresh 2))))) = [].
+Proof. vm_compute. reflexivity. Qed.
+
+Example nonvacuous_jobs_every_job_taken :
+  jq (jrun true [T 0; V; T 0; T 1; JP] (@jstart nat nat 2 (enum [Ok 1; Exc 2]))) = [].
 Proof. vm_compute. reflexivity. Qed.
